@@ -49,7 +49,12 @@ theorem c34_pinger_cancelled (g : Gw) (i : Nat) : (g.dropPinger i).pingers = g.p
 /-- **C34.** Retransmissions end with the retry budget. -/
 theorem c34_retries_stop (g : Gw) (t : Tx) (q : UInt8) (st : BpSt) (data : BpData) (snp : Option Pkt) (n : Nat)
     (hk : t.kind = .brokerPub q st data snp n) (hd : t.done = false) (hb : n + 1 > g.cfg.retryCount) :
-    (g.retryExpire t).outs = g.outs := (c16_retry_gives_up g t q st data snp n hk hd hb).2
+    (g.retryExpire t).outs = g.outs := by
+  by_cases hs : g.st = .asleep ∧ data.toClient = true
+  · -- suspended while the client sleeps: nothing is sent either (and the sleep itself is bounded: C11 / `c34_pinger_stops`)
+    unfold retryExpire
+    simp [hk, hd, hs, setTx]
+  · exact (c16_retry_gives_up g t q st data snp n hk hd hb hs).2
 
 /-- **C34.** The broker closing the connection cancels the session at once. -/
 theorem c34_broker_eof_ends (g : Gw) : (g.handleEvent .mqEof).alive = false :=
